@@ -7,7 +7,8 @@ Plan (JSON-able; all delays in units of simloop.U = 2**-10 s, overshoots in unit
      "client": {"reads": [[delay, item]...], "drains": [[delay, outcome]...], "eof_err": bool},
      "connects": [{"delay", "outcome", "reads", "drains", "eof_err", "close_err"}...],   n-th open_connection call
      "hooks": [[duration, kill]...],           n-th hook handled by the (stub) addon manager
-     "reactions": [[action...]...]}            n-th event delivered to the layer -> commands it returns
+     "reactions": [[action...]...],            n-th event delivered to the layer -> commands it returns
+     "eager": bool}                            eager task start (as under Master.run) or asyncio's default lazy start
 actions: ["open", addr_index] | ["send", conn_ref, nbytes] | ["close", conn_ref, half] | ["hook", blocking] |
          ["wakeup", delay] | ["log"]
 conn_ref: -1 = client, k >= 0 = k-th server connection the layer created (modulo their number).
@@ -16,7 +17,7 @@ The scripted layer behaves like a legal layer: it never reuses a Server object, 
 state has CAN_WRITE, only closes connections that are not CLOSED (real layers act on established connections), and
 it starts no new upstream connections and requests no wakeups in reaction to a ConnectionClosed or failed
 OpenConnectionCompleted event or once the client connection is CLOSED (no mitmproxy layer reconnects/retries when a
-connection goes away or cannot be established; hooks, e.g. error hooks,
+connection goes away or cannot be established, neither directly nor after a hook started in reaction to that; hooks, e.g. error hooks,
 may still be started).  Without this rule a "layer" could keep creating connection tasks while handle_client tears
 the connection down, which handle_client is not designed to survive and real layers never do.
 """
@@ -72,17 +73,12 @@ class World:
         self.nevents = 0
         self.handler = None
         self.returned = False
-        self.task_server = {}  # open_connection task -> server index (known once it called open_connection)
+        self.task_server = {}  # open_connection task -> server index
         self.net.on_call = self._on_call
 
     def _on_call(self, call):
         """which of the layer's Server objects is this open_connection call for? (the calling task is its handler)"""
-        cur = asyncio.current_task()
-        call["server"] = None
-        for conn, io in self.handler.transports.items():
-            if io.handler is cur:
-                call["server"] = self.conn_index(conn)
-                self.task_server[cur] = call["server"]
+        call["server"] = self.task_server.get(asyncio.current_task())
         self.log("connect_call", call["server"], call["i"])
 
     def conn_index(self, conn):
@@ -133,7 +129,8 @@ class World:
         reactions = self.plan.get("reactions", ())
         out = []
         client_gone = (self.handler.client.state is ConnectionState.CLOSED or isinstance(event, events.ConnectionClosed)
-                       or (isinstance(event, events.OpenConnectionCompleted) and event.reply is not None))
+                       or (isinstance(event, events.OpenConnectionCompleted) and event.reply is not None)
+                       or (isinstance(event, events.HookCompleted) and getattr(event.command, "tainted", False)))
         for a in (reactions[k] if k < len(reactions) else ()):
             op = a[0]
             if client_gone and op in ("open", "wakeup"):
@@ -160,6 +157,7 @@ class World:
             elif op == "hook":
                 h = SimScriptedHook(k)
                 h.blocking = bool(a[1])
+                h.tainted = client_gone  # e.g. an error hook: its completion does not lead to new connections either
                 out.append(h)
             elif op == "wakeup":
                 out.append(commands.RequestWakeup(a[1] * U))
@@ -180,6 +178,10 @@ class Handler(mode_servers.ProxyConnectionHandler):
     async def on_timeout(self):
         self.world.log("timeout")
         await super().on_timeout()
+
+    async def open_connection(self, command):
+        self.world.task_server[asyncio.current_task()] = self.world.conn_index(command.connection)
+        return await super().open_connection(command)
 
 
 def run_plan(plan, fault=None, max_iter=60_000):
@@ -204,7 +206,8 @@ def run_plan(plan, fault=None, max_iter=60_000):
         w.returned = True
         w.log("returned")
 
-    out = simloop.run(main, overshoots=[x * OV_U for x in plan.get("overshoots", ())], max_iter=max_iter, setup=setup)
+    out = simloop.run(main, overshoots=[x * OV_U for x in plan.get("overshoots", ())], max_iter=max_iter, setup=setup,
+                      eager=plan.get("eager", False))
     return box["w"], out
 
 
@@ -293,7 +296,7 @@ def decode_plan(data, max_timeout=3, max_conn=9):
                 acts.append(["send", -1, 1])
         reactions.append(acts)
     return {"timeout": timeout, "overshoots": overshoots, "client": client, "connects": connects, "hooks": hooks,
-            "reactions": reactions}
+            "reactions": reactions, "eager": t.flag(1, 2)}
 
 
 def plan_strategy(max_timeout=3, max_conn=9, size=320):
